@@ -135,6 +135,6 @@ pub fn arb_pair() -> BoxedStrategy<(M, M)> {
 }
 
 fn run(ctx: &mut Ctx) {
-    let cases = ctx.share(ctx.tier.pick(80_000, 3_000_000));
+    let cases = ctx.share(ctx.tier.pick(600_000, 6_000_000));
     run_strategy(ctx, "C13", "pairs", cases, arb_pair(), check);
 }
